@@ -267,7 +267,40 @@ pub fn c17_collect<const N: usize, const M: usize, const OP: u8>() {
     vf::check(tok::no_excess(), 301); // a panicking collect may leak what it had cloned; nothing may die twice
 }
 
+/// the bulk constructors and Extend under lying comparisons: From<[_; N]> for Map and Set, collect(), extend()
+/// (0 Map::from(array) 1 Set::from(array) 2 collect into a Map 3 Set::extend of a non-empty set, may overflow and panic)
+pub fn c17_build<const N: usize, const OP: u8>() {
+    tok::reset();
+    let mut ks = [0u8; N];
+    let mut i = 0;
+    while i < N { ks[i] = vf::any_u8(); i += 1; }
+    let mut gm: Guarded<Map<Tok, Tok, N>> = unsafe { vf::garbage() };
+    vf::assume(gm.c.len() == 0);
+    gm.lo = [LO; 2];
+    gm.hi = [HI; 2];
+    let mut gs = liar_set::<N>(); // sets LIAR
+    let panicked = {
+        let (m, s) = (&mut gm.c, &mut gs.c);
+        vf::catch(move || {
+            match OP {
+                0 => { let arr: [(Tok, Tok); N] = core::array::from_fn(|i| (Tok::tagged(ks[i], i as u8), Tok::new(i as u8))); *m = Map::from(arr); }
+                1 => { let arr: [Tok; N] = core::array::from_fn(|i| Tok::tagged(ks[i], i as u8)); *s = Set::from(arr); }
+                2 => { let arr: [(Tok, Tok); N] = core::array::from_fn(|i| (Tok::tagged(ks[i], i as u8), Tok::new(i as u8))); *m = arr.into_iter().collect(); }
+                _ => { let arr: [Tok; N] = core::array::from_fn(|i| Tok::tagged(ks[i], i as u8)); s.extend(arr); }
+            }
+        })
+    };
+    if panicked { if OP == 3 { vf::reach(1); } } else { vf::reach(2); }
+    sane(&gm);
+    sane_set(&gs);
+    drop(gm);
+    drop(gs);
+    vf::check(tok::no_excess(), 301);
+    if !panicked { vf::check(tok::balanced(), 302); }
+}
+
 harnesses! {
+    c17_build: [2, 0] [2, 1] [2, 2] [2, 3] [3, 0] [3, 1] [3, 2] [3, 3];
     c17_collect: [2, 1, 0] [2, 1, 1];
     c17_insert: [0] [1] [2] [3];
     c17_remove: [1] [2] [3];
@@ -275,6 +308,7 @@ harnesses! {
     c17_disjoint: [1, 2] [2, 2] [3, 2] [2, 3] [3, 3];
     c17_set: [1, 1] [2, 1] [1, 2];
     @deep
+    c17_build: [4, 0] [4, 1] [4, 2] [4, 3];
     c17_collect: [2, 1, 2] [2, 1, 3] [2, 2, 0] [3, 1, 0];
     c17_two: [1] [2] [3];
     c17_insert: [4];
